@@ -8,7 +8,11 @@ use std::collections::HashSet;
 /// 统一定义「词项引用」 | 避免循环引用
 pub type TermRefType = Box<Term>;
 /// 统一定义「无序不重复词项容器」
+#[cfg(not(narsese_verif))]
 pub type TermSetType = HashSet<Term>;
+/// (verification build) same container, hasher keys owned by the simulator
+#[cfg(narsese_verif)]
+pub type TermSetType = HashSet<Term, crate::verif_hooks::SimBuildHasher>;
 /// 统一定义「有序可重复词项容器」
 pub type TermVecType = Vec<Term>;
 
